@@ -83,6 +83,9 @@ func typedLiteral(r *rand.Rand, s *model.Schema, t *model.TypeRef, depth int, na
 			}
 			o := model.NewObjLit()
 			for _, f := range td.Inputs {
+				if f.HasDefault && r.Intn(2) == 0 {
+					continue // left to the nested type's own default
+				}
 				v, okv := typedLiteral(r, s, f.Type, depth-1, nasty)
 				if !okv {
 					if f.Type.NonNull && !f.HasDefault {
@@ -228,7 +231,11 @@ func (g *typeGen) uses(loc string) []model.DirUse {
 		if g.r.Intn(2) == 0 {
 			u.Args = []model.Arg{{Name: "reason", Value: nastyString(g.r, g.o.NastyStrings)}}
 		}
-		out = append(out, u)
+		if g.r.Intn(2) == 0 {
+			out = append([]model.DirUse{u}, out...) // @deprecated written before the other directives of the member
+		} else {
+			out = append(out, u)
+		}
 	}
 	return out
 }
@@ -456,10 +463,30 @@ func TypeSchema(r *rand.Rand, o TypeOpts) *model.Schema {
 	}
 	q.Fields = append(q.Fields, &model.FieldDef{Name: "plain", Type: g.outLeaf(), Desc: Desc(r, o.NastyStrings), Dirs: g.uses("FIELD_DEFINITION")})
 	q.Dirs = g.uses("OBJECT")
+	// a root operation type may implement an interface like any other object
+	implementRoot := func(t *model.TypeDef) {
+		if len(ifaces) == 0 || r.Intn(3) != 0 {
+			return
+		}
+		it := ifaces[r.Intn(len(ifaces))]
+		t.Interfaces = append(t.Interfaces, it.Name)
+		for _, fi := range it.Fields {
+			if t.Field(fi.Name) != nil {
+				continue
+			}
+			f := &model.FieldDef{Name: fi.Name, Type: fi.Type}
+			for _, a := range fi.Args {
+				f.Args = append(f.Args, &model.ArgDef{Name: a.Name, Type: a.Type, HasDefault: a.HasDefault, Default: a.Default})
+			}
+			t.Fields = append(t.Fields, f)
+		}
+	}
+	implementRoot(q)
 	s.Types = append(s.Types, q)
 	s.Query = qn
 	if r.Intn(2) == 0 {
 		m := &model.TypeDef{Kind: model.Object, Name: mn, Fields: []*model.FieldDef{{Name: "mut", Type: model.Named("Int"), Args: g.args(1)}}}
+		implementRoot(m)
 		s.Types = append(s.Types, m)
 		s.Mutation = mn
 	}
